@@ -4,7 +4,9 @@ import PqModel.Search
 namespace Driver.Ops.C06
 open Driver
 
-/-- `find <asc 0/1> <zero-rank> <mins> <maxs> <v>` (bounds: int or `n`) -> `ok <page> <boundary order>` -/
+/-- `find <asc 0/1> <zero-rank> <mins> <maxs> <v>` (bounds: int or `n`) -> `ok <page> <boundary order>`
+    (nulls-last compare, as `Search`); `find.nf <nullsFirst 0/1> <asc> <zero-rank> <mins> <maxs> <v>` gives the
+    null ordering of the compare function handed to `Find`. -/
 def handle (toks : List String) : Option String :=
   match toks with
   | ["find", asc, z, mins, maxs, v] => some <|
@@ -12,7 +14,14 @@ def handle (toks : List String) : Option String :=
     | some mn, some mx, some v, some z =>
       let ix : PqModel.Search.Index := { mins := mn, maxs := mx }
       if mn.length ≠ mx.length then "bad-op" else
-      s!"ok {PqModel.Search.find (asc == "1") ix v} {PqModel.Search.writerOrder z ix}"
+      s!"ok {PqModel.Search.find false (asc == "1") ix v} {PqModel.Search.writerOrder z ix}"
+    | _, _, _, _ => "bad-op"
+  | ["find.nf", nf, asc, z, mins, maxs, v] => some <|
+    match parseList? parseOptInt? mins, parseList? parseOptInt? maxs, parseInt? v, parseInt? z with
+    | some mn, some mx, some v, some z =>
+      let ix : PqModel.Search.Index := { mins := mn, maxs := mx }
+      if mn.length ≠ mx.length || (nf != "0" && nf != "1") then "bad-op" else
+      s!"ok {PqModel.Search.find (nf == "1") (asc == "1") ix v} {PqModel.Search.writerOrder z ix}"
     | _, _, _, _ => "bad-op"
   | _ => none
 
